@@ -1,6 +1,7 @@
 ---- MODULE MC_Log ----
 EXTENDS Log
 ShOk1 == {[n |-> 1, kind |-> "ok"]}
+ShOk2 == {[n |-> 2, kind |-> "ok"]}
 ShOk12 == {[n |-> 1, kind |-> "ok"], [n |-> 2, kind |-> "ok"]}
 ShAll == {[n |-> 1, kind |-> "ok"], [n |-> 2, kind |-> "ok"], [n |-> 1, kind |-> "neglod"], [n |-> 1, kind |-> "concat"]}
 ====
